@@ -8,6 +8,7 @@ def dispOf : String → Option Disp
   | "miss" => some (.executed (.miss .normal true))
   | "hit" => some (.executed .hit)
   | "forced" => some (.executed (.miss .forcedRecache true))
+  | "forcedro" => some (.executed (.miss .forcedRecache false))      -- a forced re-store on a read-only cache: the store is refused
   | "missro" => some (.executed (.miss .normal false))
   | "fail" => some (.executed .errProcess)
   | "pperr" => some (.executed .errorPP)
